@@ -92,6 +92,12 @@ Example selectorlist_nonvacuous :     (* "a#i , .c" -> two members (1,0,1) (0,1,
   /\ sep_free ex_sel_simple = true.
 Proof. repeat split; vm_compute; reflexivity. Qed.
 
+(* the seq a Selector holds after parsing, as an explicit function of the derivation *)
+Theorem seq_is_expected :
+  forall ns sel, Declared ns sel -> seq (run ns (prepass (render sel))) = seq_of ns sel.
+Proof. exact seq_is_expected_lemma. Qed.
+Print Assumptions seq_is_expected.
+
 (* non-vacuity:  ` p|a#i.c[q|x ~= "v"]:hover:not( :lang(en) ) /**/ > *::first-line `  is Declared, and evaluates *)
 Definition ex_ns : ns_map := [(s "p", s "u:p"); (s "q", s "u:q")].
 Definition ex_sel : selector :=
